@@ -299,3 +299,67 @@ Print Assumptions unsplittable_token_rejected.
 Example unsplittable_token_ex :
   deserialize [51] = None /\ deserialize [124; 100] = None /\ deserialize [51; 124] = Some ([51], []).
 Proof. vm_compute. repeat split; reflexivity. Qed.
+
+(* ---- inner-iteration faults on the sqlite readers ----------------------------------------------- *)
+
+(* [bad] = key of a row the database cannot produce (rows.Next() stops there, rows.Err() is set).
+   Keyset readers as coded (rows loop, rows.Err() check, limit+1 trick): a request whose statement
+   reaches the faulty row is an error -- never a page, so never a short page with the end marker *)
+Theorem paging_fault_never_truncates : forall (A : Type) (rows : list (bytes * A)) (ps : Z)
+                                              (tok from bad : bytes),
+  (fault_in_stmt bad (keyset_stmt ble rows (page_size_opt ps) tok) = true ->
+   stores_sql_f rows (Some bad) ps tok = Rejected EInternal)
+  /\ (fault_in_stmt bad (keyset_stmt desc rows (page_size_opt ps) tok) = true ->
+      models_sql_f rows (Some bad) ps tok = Rejected EInternal)
+  /\ (storage_from tok = Some from ->
+      fault_in_stmt bad (keyset_stmt ble rows (page_size_opt ps) from) = true ->
+      read_sql_f rows (Some bad) ps tok = Rejected EInternal).
+Proof. exact @paging_fault_never_truncates_all. Qed.
+Print Assumptions paging_fault_never_truncates.
+
+Example paging_fault_never_truncates_ex :
+  fault_in_stmt k3 (keyset_stmt ble rows4 (page_size_opt 2) []) = true
+  /\ stores_sql_f rows4 (Some k3) 2 [] = Rejected EInternal
+  /\ stores_sql_f rows4 (Some k3) 1 [] = Page [7] k2
+  /\ stores_sql_f rows4 (Some k3) 1 k2 = Rejected EInternal
+  /\ read_sql_f rows4 (Some k4) 2 (k2 ++ [124]) = Rejected EInternal.
+Proof. vm_compute. repeat split; reflexivity. Qed.
+
+(* ... and a request that does not reach it is answered exactly as without the fault *)
+Theorem paging_fault_outside_is_clean : forall (A : Type) (rows : list (bytes * A)) (ps : Z) (tok bad : bytes),
+  (fault_in_stmt bad (keyset_stmt ble rows (page_size_opt ps) tok) = false ->
+   stores_sql_f rows (Some bad) ps tok = stores_sql rows ps tok)
+  /\ (fault_in_stmt bad (keyset_stmt desc rows (page_size_opt ps) tok) = false ->
+      models_sql_f rows (Some bad) ps tok = models_sql rows ps tok).
+Proof. exact @paging_fault_outside_all. Qed.
+Print Assumptions paging_fault_outside_is_clean.
+
+Example paging_fault_outside_is_clean_ex :
+  fault_in_stmt k4 (keyset_stmt ble rows4 (page_size_opt 2) []) = false
+  /\ stores_sql_f rows4 (Some k4) 2 [] = Page [7; 8] k3.
+Proof. vm_compute. split; reflexivity. Qed.
+
+(* sqlite ReadChanges as coded has NO rows.Err() check: the same statement for it is refuted (new
+   finding, flag sqlite_changes_iteration_error_swallowed): the traversal ends after the changes
+   scanned before the fault, with the ordinary end-of-log answer and no error *)
+Theorem changes_fault_never_truncates_refuted :
+  exists (rows : list (bytes * N)) ps ty bad,
+    changes_sql_fault_hit rows bad ps [] = true
+    /\ follow_changes 4 (changes_sql_f rows (Some bad) ps ty) []
+       = ([([1], [48; 49; 65; 124]); ([], [48; 49; 65; 124])], EndMarker)
+    /\ pages_items (fst (follow_changes 4 (changes_sql_f rows None ps ty) [])) = [1; 2; 3].
+Proof. exact PagingProofs.changes_fault_never_truncates_refuted. Qed.
+Print Assumptions changes_fault_never_truncates_refuted.
+
+(* partial: a ReadChanges request whose statement does not reach the faulty row is unaffected *)
+Theorem changes_fault_never_truncates_partial : forall (A : Type) (rows : list (bytes * A)) (size : N)
+                                                       (from bad : bytes),
+  fault_in_stmt bad (changes_stmt rows size from) = false ->
+  changes_page_f rows size from (Some bad) = changes_page_f rows size from None.
+Proof. exact @changes_fault_outside. Qed.
+Print Assumptions changes_fault_never_truncates_partial.
+
+Example changes_fault_ex :
+  changes_sql_f crows3 (Some [48; 49; 67]) 2 [] [] = Page [1; 2] [48; 49; 66; 124]
+  /\ changes_sql_f crows3 None 2 [] [] = changes_sql crows3 2 [] [].
+Proof. vm_compute. split; reflexivity. Qed.
